@@ -191,10 +191,10 @@ def check_composition(res, dump, kind, switches, wall, fixed=None):
     def lines(cfg):
         p = front(dict(fixed, **cfg), wall=wall)
         if kind == 'kevents':
-            return list(p.formatted_kevents(io.BytesIO(dump['data'])))
+            return list(p.formatted_kevents(wire.stream(dump['data'])))
         if kind == 'traces':
-            return list(p.formatted_traces(io.BytesIO(dump['data'])))
-        return list(p.formatted_callstacks(io.BytesIO(dump['data'])))
+            return list(p.formatted_traces(wire.stream(dump['data'])))
+        return list(p.formatted_callstacks(wire.stream(dump['data'])))
     case = {'file': dump['data'], 'kind': kind, 'wall_clock': wall, 'fixed': {k: list(v) if isinstance(v, list) else v for k, v in fixed.items()}}
     try:
         body = lines({})
@@ -571,6 +571,8 @@ def check_logs(res, rng):
         if ANSI.sub('', b) != a:
             res.violation('c14-colour-changes-text', f'log line: plain {a!r} vs coloured {ANSI.sub("", b)!r}', case)
             return
+        if '\x1b[' in b:
+            res.count('log_lines_with_escape_sequences_observed')
         if not a.endswith(inv[raw['cm']]):
             res.violation('c14-log-body', f'log line {a!r} does not end with its message', case)
             return
@@ -585,6 +587,11 @@ def run(ctx):
     res = core.Result()
     rng = ctx.rng
     prev_dump = None
+    # the colouring library emits escape sequences only when it is allowed to (a terminal, or FORCE_COLOR): without this
+    # every "coloured" log line is plain and the comparison "colouring never changes the text" compares a line with itself
+    import os
+    os.environ['FORCE_COLOR'] = '1'
+    os.environ.pop('NO_COLOR', None)
     for i in range(ctx.pick(16, 600)):
         check_logs(res, rng)
         dump = gen_dump(rng)
@@ -636,6 +643,7 @@ def run(ctx):
     res.require('reused_object_requests', 20)
     res.require('callstack_headers_checked', 10)
     res.require('long_dumps', 1)
+    res.require('log_lines_with_escape_sequences_observed', 10)
     res.require('compositions_under_event_filters', 10)
     res.require('cli_listings_compared', 12)
     res.require('concurrent_object_listings', 6)
